@@ -12,6 +12,7 @@ import time
 
 import e2e
 import tgen
+import positions as _positions
 from vlib import CACHE, hexs, unhexs, repo_hash
 
 HEADER = """#![allow(warnings)]
@@ -96,7 +97,7 @@ def gen_position_cases(rng, nbase, positions, allow_regex=True, forms=None):
         pg = tgen.PatGen(g, rng, forms=forms, root_is_ref=True)
         pat = pg.pat(v0, t, depth=1)
         v = v0 if rng.random() < 0.5 else g.perturb(v0, t, 0.5)
-        extra = "(v %s (int 0)) (v %s (str %s)) (m %s %s)" % (hexs("0"), hexs('"k"'), hexs("k"), hexs("get"), hexs("field:f"))
+        extra = "(v %s (int 0)) (v %s (str %s)) %s" % (hexs("0"), hexs('"k"'), hexs("k"), _positions.METHOD_MEANINGS)
         for pos in positions:
             c = Case()
             c.id = k
@@ -127,10 +128,14 @@ def program(cases):
         setup = getattr(c, "setup", "")
         post = getattr(c, "post", "")
         # wrap_open / wrap_close: code around the invocation inside the closure (e.g. `block_on(async {` .. `})` for `.await`); no newlines
-        pre = "mod case_%d {\nuse super::*;\n%s\npub fn run() {\nlet v: %s = %s;\n%s\nrun_case(%d, || {\n%sassert_struct!(\n" % (
-            c.id, c.decls_text, c.type_text, c.value_text, setup, c.id, getattr(c, "wrap_open", ""))
+        # custom_invocation: the statement that runs the assertion when it is not written as `assert_struct!(<text>)` in place - e.g. a
+        # caller's own `macro_rules!` helper (defined in decls) that forwards to the macro; c.text stays what the macro receives
+        custom = getattr(c, "custom_invocation", None)
+        pre = "mod case_%d {\nuse super::*;\n%s\npub fn run() {\nlet v: %s = %s;\n%s\nrun_case(%d, || {\n%s%s\n" % (
+            c.id, c.decls_text, c.type_text, c.value_text, setup, c.id, getattr(c, "wrap_open", ""), "/* forwarded */ " + custom + " /*" if custom else "assert_struct!(")
+        c.mod_line = lines + 1
         c.first_line = lines + pre.count("\n") + 1
-        body = " " + c.text + "\n)%s;\n});\n%s\n}\n}\n" % (getattr(c, "wrap_close", ""), post)
+        body = " " + c.text + "\n%s%s;\n});\n%s\n}\n}\n" % ("*/" if custom else ")", getattr(c, "wrap_close", ""), post)
         out.append(pre + body)
         lines += pre.count("\n") + body.count("\n")
         c.last_line = lines
@@ -183,8 +188,9 @@ def expected_from_lean(ck, cases):
                 f[0], c.text[:200], c.value_sexp[:200], c.meanings[:300]))
 
 
-def run_corpus(ck, stream, n, per_bin=20, allow_regex=True, forms=None, default_features=True, seed_salt=0, use_cache=True, positions=None, edition="2024", gen_stream=None, release=False):
-    """Returns the list of cases with .expect (spec) and .got (implementation)."""
+def run_corpus(ck, stream, n, per_bin=20, allow_regex=True, forms=None, default_features=True, seed_salt=0, use_cache=True, positions=None, edition="2024", gen_stream=None, release=False, run_env=None):
+    """Returns the list of cases with .expect (spec) and .got (implementation).
+    run_env: extra environment variables of the PROCESS that runs the compiled programs (not of the build)."""
     key = "%s-%s-%d-%s-%d-%d-%s-%s" % (repo_hash(), stream, ck.seed, ck.tier, n, seed_salt, allow_regex, default_features)
     cdir = os.path.join(CACHE, "t3")
     os.makedirs(cdir, exist_ok=True)
@@ -197,9 +203,9 @@ def run_corpus(ck, stream, n, per_bin=20, allow_regex=True, forms=None, default_
     else:
         cases = gen_cases(rng, n, gen_stream or stream, allow_regex=allow_regex, forms=forms)
     import hashlib
-    digest = hashlib.sha256("\n".join(c.decls_text + "|" + c.type_text + "|" + c.value_text + "|" + c.text + "|" + getattr(c, "setup", "") + getattr(c, "post", "") + getattr(c, "wrap_open", "") for c in cases).encode()).hexdigest()[:16]
+    digest = hashlib.sha256("\n".join(c.decls_text + "|" + c.type_text + "|" + c.value_text + "|" + c.text + "|" + getattr(c, "setup", "") + getattr(c, "post", "") + getattr(c, "wrap_open", "") + (getattr(c, "custom_invocation", None) or "") for c in cases).encode()).hexdigest()[:16]
     # impl results only (the spec side is recomputed); everything that changes how the programs are BUILT is part of the key
-    cpath = os.path.join(cdir, "%s-%s-%s-%s-%s-%s.json" % (repo_hash(), stream, digest, "df" if default_features else "nodf", edition, "rel" if release else "dev"))
+    cpath = os.path.join(cdir, "%s-%s-%s-%s-%s-%s.json" % (repo_hash(), stream, digest, "df" if default_features else "nodf", edition, ("rel" if release else "dev") + ("-env" + hashlib.sha256(repr(sorted(run_env.items())).encode()).hexdigest()[:8] if run_env else "")))
     expected_from_lean(ck, cases)
     if use_cache and os.path.exists(cpath):
         got = json.load(open(cpath))
@@ -230,7 +236,7 @@ def run_corpus(ck, stream, n, per_bin=20, allow_regex=True, forms=None, default_
             rejected = []
             for name, chunk in bins.items():
                 if res[name]["ok"]:
-                    rc, out, err = proj.run(name, default_features=default_features)
+                    rc, out, err = proj.run(name, default_features=default_features, env=run_env)
                     seen = set()
                     for line in out.split("\n"):
                         if line.startswith("X "):
@@ -275,7 +281,7 @@ def run_corpus(ck, stream, n, per_bin=20, allow_regex=True, forms=None, default_
                         for s in d["spans"]:
                             if s["primary"]:
                                 for c in chunk:
-                                    if c.first_line - 8 <= s["ls"] <= c.last_line and c not in rejected:
+                                    if min(c.first_line - 8, getattr(c, "mod_line", c.first_line)) <= s["ls"] <= c.last_line and c not in rejected:
                                         c.got = ("rejected", [], "%s %s" % (d["code"], d["message"]))
                                         rejected.append(c)
                     if not any(c in rejected for c in chunk):
